@@ -176,10 +176,27 @@ func elesOf(ps []pair) []int {
 
 type failure struct{ key, what string }
 
+// probeLog collects invariant-probe violations (hook H6) of the case being executed; probeFatal makes them
+// ordinary failures (only used to shrink a case down to its first probe violation).
+var (
+	probeLog   []failure
+	probeFatal bool
+)
+
+func isProbeKey(k string) bool {
+	return strings.HasPrefix(k, "probe:") || strings.HasPrefix(k, "L:probe:")
+}
+
 // ---- kind "z" ------------------------------------------------------------------------------------
 
 func execZ(c tcase, rec *hxlib.Run) (fails []failure, nontrivial bool) {
 	fail := func(key, format string, a ...interface{}) {
+		if isProbeKey(key) && !probeFatal {
+			// a violated internal invariant is not a property violation: note it and let the case go on —
+			// the content/rank/range checks that follow decide whether the PROPERTY fails
+			probeLog = append(probeLog, failure{key, fmt.Sprintf(format, a...)})
+			return
+		}
 		fails = append(fails, failure{key, fmt.Sprintf(format, a...)})
 	}
 	rand.Seed(c.Seed)
@@ -365,6 +382,12 @@ func showPairs(ps []pair) string {
 
 func execL(c tcase, rec *hxlib.Run) (fails []failure, nontrivial bool) {
 	fail := func(key, format string, a ...interface{}) {
+		if isProbeKey(key) && !probeFatal {
+			// a violated internal invariant is not a property violation: note it and let the case go on —
+			// the content/rank/range checks that follow decide whether the PROPERTY fails
+			probeLog = append(probeLog, failure{key, fmt.Sprintf(format, a...)})
+			return
+		}
 		fails = append(fails, failure{key, fmt.Sprintf(format, a...)})
 	}
 	rand.Seed(c.Seed)
@@ -581,9 +604,35 @@ func caseKey(c tcase) string {
 func one(r *hxlib.Run, c tcase) {
 	r.Case()
 	r.Count("case:" + c.Kind)
+	probeLog = nil
 	fails, nt := exec(c, r)
 	if nt {
 		r.NonTrivial(caseKey(c))
+	}
+	if len(fails) == 0 && len(probeLog) > 0 {
+		// the skip list left its structural envelope although every answer still agreed with the reference:
+		// a broken correspondence, not (yet) a property violation
+		pb := probeLog[0]
+		probeFatal = true
+		keep := hxlib.DDMin(len(c.Ops), func(keep []int) bool {
+			cand := tcase{Kind: c.Kind, Seed: c.Seed}
+			for _, j := range keep {
+				cand.Ops = append(cand.Ops, c.Ops[j])
+			}
+			fs, _ := exec(cand, nil)
+			for _, g := range fs {
+				if g.key == pb.key {
+					return true
+				}
+			}
+			return false
+		})
+		probeFatal = false
+		small := tcase{Kind: c.Kind, Seed: c.Seed}
+		for _, j := range keep {
+			small.Ops = append(small.Ops, c.Ops[j])
+		}
+		r.Broken(pb.key, fmt.Sprintf("%d call(s): %s — every answer still agreed with the sorted reference", len(small.Ops), pb.what), small)
 	}
 	seen := map[string]bool{}
 	for _, f := range fails {
